@@ -11,6 +11,9 @@ event encoding (5 integers each):  [code, a, b, c, t]
 """
 import json
 import sys
+import warnings
+
+warnings.filterwarnings("ignore")   # scipy.stats.describe on identical Krylov step counts
 
 import c12_lib as L   # imports renormalizer before numpy
 import numpy as np
@@ -95,10 +98,29 @@ def install():
             _emit([6, _idx(node), ichild, _idx(node.children[ichild]), 0])
         return _f(self, node, ichild, v)
 
+    from renormalizer.utils.configs import CompressConfig as _CC
+    _cmt = _CC.compute_m_trunc
+
+    def cmt_wrap(self, sigma, idx, left, _f=_cmt):
+        if LOG.get("mtrunc") is not None:
+            LOG["mtrunc"].append((int(idx), bool(left)))
+        return _f(self, sigma, idx, left)
+
+    _CC.compute_m_trunc = cmt_wrap
+
     def w_u2(self, node, tensor, m=None, percent=0, cano_parent=True, _f=T.update_2site):
-        if self is LOG["ttns"]:
+        mine = self is LOG["ttns"]
+        if mine:
             _emit([9, _idx(node), _idx(node.parent), 1 if cano_parent else 0, 0])
-        return _f(self, node, tensor, m, percent, cano_parent)
+            LOG["mtrunc"] = []
+        try:
+            return _f(self, node, tensor, m, percent, cano_parent)
+        finally:
+            if mine:
+                # the bond (node, parent) is governed by the limit stored at the NODE's index (bond_idx = idx, left=False)
+                if m is None and LOG["mtrunc"] != [(_idx(node), False)]:
+                    LOG["bad"].append("update_2site read a bond limit that is not the one of its own bond: node %d read %r" % (_idx(node), LOG["mtrunc"]))
+                LOG["mtrunc"] = None
 
     T.decompose_to_parent, T.merge_to_parent, T.decompose_to_child, T.merge_to_child, T.update_2site = w_dtp, w_mtp, w_dtc, w_mtc, w_u2
     E = tr.TTNEnviron
